@@ -55,6 +55,8 @@ def build_value(ty: Ty, mv, memo=None):
         return None if mv is None else build_value(ty.inner, mv, memo)
     if isinstance(ty, Rec):
         fields = {k: build_value(t, mv.get(k), memo) for k, t in ty.fields.items()} if isinstance(mv, dict) else {}
+        if getattr(ty, "build_native", None) is not None:
+            return ty.build_native(fields)  # e.g. enum members: the real object is looked up, not constructed
         if ty.as_dict:
             if getattr(ty, "optkeys", False):
                 return {k: v for k, v in fields.items() if v is not None}
@@ -141,6 +143,11 @@ def replay(c: api.Contract, inputs: dict):
             out["confirmed"] = False
             out["reason"] = "model does not satisfy the precondition natively (over-abstraction)"
             return out
+    # ghost output streams (pyvc/effects.py): one element per click.echo call, natively recorded by a patched echo
+    streams = {"stdout": [], "stderr": []}
+    old.__dict__.setdefault("stdout", [])
+    old.__dict__.setdefault("stderr", [])
+    restore_echo = _patch_echo(streams)
     try:
         result = fn(**args)
         out["result"] = _show(result)
@@ -148,6 +155,13 @@ def replay(c: api.Contract, inputs: dict):
     except BaseException as e:  # noqa
         raised = e
         out["raised"] = repr(e)
+    finally:
+        restore_echo()
+    for sname, lines in streams.items():
+        if lines:
+            out[sname] = lines[:20]
+        if sname not in args:
+            args[sname] = lines
     failed = []
     if raised is not None:
         ok_cls = any(_exc_matches(raised, r) for r in c.raises)
@@ -156,6 +170,19 @@ def replay(c: api.Contract, inputs: dict):
         rw = c.native("raises_when")
         if ok_cls and rw is not None and not _call_spec(rw, dict(old.__dict__, old=old)):
             failed.append("raised outside raises_when")
+        if ok_cls:
+            code = raised.code if isinstance(raised, SystemExit) else (raised.args[0] if raised.args else None)
+            if isinstance(raised, SystemExit) and code is None:
+                code = 0
+            cname = next((r for r in c.raises if _exc_matches(raised, r)), type(raised).__name__)
+            for name in sorted(n for n in c.methods if n.startswith("on_raise")):
+                try:
+                    ok = _call_spec(c.native(name), dict(args, old=old, exc=code, exc_class=cname))
+                except Exception as e:  # noqa
+                    ok = None
+                    out.setdefault("spec_errors", {})[name] = repr(e)
+                if ok is False:
+                    failed.append(name)
     else:
         rw = c.native("raises_when")
         if rw is not None and _call_spec(rw, dict(old.__dict__, old=old)):
@@ -178,6 +205,24 @@ def replay(c: api.Contract, inputs: dict):
     out["failed_clauses"] = failed
     out["confirmed"] = bool(failed)
     return out
+
+
+def _patch_echo(streams):
+    """Record click.echo(message, err=...) calls instead of printing (the native rendering of the ghost streams)."""
+    try:
+        import click
+    except Exception:  # noqa
+        return lambda: None
+    orig = click.echo
+
+    def echo(message=None, file=None, nl=True, err=False, color=None):
+        streams["stderr" if err else "stdout"].append("" if message is None else str(message))
+
+    click.echo = echo
+
+    def restore():
+        click.echo = orig
+    return restore
 
 
 def _exc_matches(e, name):
